@@ -10,7 +10,7 @@ pub const VAR_NAMES: &[&str] = &[
 ];
 pub const PRED_NAMES: &[&str] = &["p", "q", "r", "s", "hp", "tp", "t", "h", "q_p", "p__s"];
 // "tp"/"hq"/"hp" collide with the h-/t-prefixed copies of 0-ary predicates (rename_conflicting_symbols)
-pub const SYM_NAMES: &[&str] = &["a", "b", "c", "n", "p", "s", "tp", "hq", "hp", "out2", "tp__s", "tq_p"];
+pub const SYM_NAMES: &[&str] = &["a", "b", "c", "n", "p", "s", "tp", "hq", "hp", "out2", "tp__s", "tq_p", "aB", "a_"];
 pub const FC_NAMES: &[&str] = &["a", "n", "c"];
 /// identifier shapes the input grammars accept but that stress the TFF name mangling (C09)
 pub const HOSTILE_SYMS: &[&str] = &["a", "b", "_a", "n_i", "general", "symbol", "p", "a__s", "c_g", "x_s", "f__integer__", "tp", "hq", "tp__s", "ha__s", "ta__s"];
